@@ -1641,6 +1641,21 @@ class PathExec(object):
                                 new.append(s2)
                     sts = new
                     continue
+                if src.startswith('case '):
+                    # boolean case split: fork on a side-effect-free expression over the locals
+                    node = ast.parse(src[5:].strip(), mode='eval').body
+                    new = []
+                    for st in sts:
+                        p = Pure(self.eng, st, st.env, ct_globals(ct), True, TRUE, lineno)
+                        c = p.truthy(p.ev(node))
+                        for cc, tag in ((c, 'T'), (z3.Not(c), 'F')):
+                            if self.eng.feasible(st, cc):
+                                s2 = st.fork()
+                                s2.assume(cc)
+                                s2.trace.append('L%s:case[%s]=%s' % (lineno, src[5:].strip(), tag))
+                                new.append(s2)
+                    sts = new
+                    continue
                 if src.startswith('cut '):
                     # assert / havoc / assume: every incoming path proves the cut formula;
                     # execution continues once, from the most general state satisfying it.
